@@ -547,6 +547,9 @@ func runC16(c *Ctx) {
 			case strings.HasPrefix(sc.Name(), "mergeMaps"):
 				merge = cl
 				mergeFn = sc
+			case isGenericStd(cl, "maps", "Copy") && len(cl.Call.Args) == 2 && inLoop(cl):
+				merge = cl // maps.Copy(vars, newVars) written out in the loop
+				mergeFn = nil
 			}
 		})
 	}
@@ -556,7 +559,15 @@ func runC16(c *Ctx) {
 	}
 	// which parameter of mergeMaps is overwritten (to) and which is ranged (from)
 	toIdx, fromIdx := -1, -1
-	EachInstr(mergeFn, func(in ssa.Instruction) {
+	if mergeFn == nil {
+		toIdx, fromIdx = 0, 1 // maps.Copy(dst, src)
+	}
+	eachMergeInstr := func(f func(ssa.Instruction)) {
+		if mergeFn != nil {
+			EachInstr(mergeFn, f)
+		}
+	}
+	eachMergeInstr(func(in ssa.Instruction) {
 		switch x := in.(type) {
 		case *ssa.MapUpdate:
 			for i, p := range mergeFn.Params {
